@@ -551,13 +551,6 @@ Lemma frame_unfold pr o :
                  end).
 Proof. intros Hp. unfold frame. rewrite Hp. reflexivity. Qed.
 
-Lemma In_remove1_pending c a x l : In x (remove1_pending c a l) -> In x l.
-Proof.
-  induction l as [|y l IH]; cbn [remove1_pending]; [tauto|].
-  destruct ((kind_num (KClass y.1.1) =? kind_num (KClass c)) && (y.1.2 =? a)).
-  - intros H. right. exact H.
-  - intros [H|H]; [left; exact H|right; apply IH; exact H].
-Qed.
 
 Section invariant.
   (* the configuration of the peer during the frame *)
@@ -1106,11 +1099,11 @@ Section invariant.
       apply Inv_set_pending; [irr|]. intros c1 a1 o1 Hin. cbn [d_pending set] in Hin.
       apply (i_pend a Ha). destruct lst.
       + apply In_filter_std in Hin as [Hin _]. exact Hin.
-      + eapply In_remove1_pending. exact Hin.
+      + exact Hin.
     - apply Inv_set_pending; [exact Ha|]. intros c1 a1 o1 Hin. cbn [d_pending set] in Hin.
       apply (i_pend a Ha). destruct lst.
       + apply In_filter_std in Hin as [Hin _]. exact Hin.
-      + eapply In_remove1_pending. exact Hin.
+      + exact Hin.
   Qed.
 
   Lemma Inv_promote_reader pr : Inv pr -> Inv (promote_reader pr).
